@@ -73,8 +73,8 @@ ACCEPTS = {
 
 
 def make_from(kind, rep, s, off, name="s"):
-    """(sequence made from `s` given as representation `rep`, the existing object handed over or None);
-    None when that constructor does not take the representation"""
+    """(sequence made from `s` given as representation `rep`, the existing object handed over or None,
+    the raw data object the caller keeps); None when that constructor does not take the representation"""
     if rep not in ACCEPTS[kind] or (kind == "sdv" and (off or not s)):
         return None
     from cogent3.core.new_moltype import get_moltype
@@ -106,12 +106,25 @@ def make_from(kind, rep, s, off, name="s"):
         raise ValueError(rep)
     if kind == "old":
         cls = type(make("old", "", "dna", name, 0))
-        return cls(data, name=name, annotation_offset=off), source
+        return cls(data, name=name, annotation_offset=off), source, data
     if kind == "new":
-        return dna.make_seq(seq=data, name=name, annotation_offset=off, check_seq=isinstance(data, (str, bytes))), source
+        return dna.make_seq(seq=data, name=name, annotation_offset=off, check_seq=isinstance(data, (str, bytes))), source, data
     from cogent3.core import new_alignment
 
-    return new_alignment.make_unaligned_seqs({name: data}, moltype="dna").get_seq(name), source
+    return new_alignment.make_unaligned_seqs({name: data}, moltype="dna").get_seq(name), source, data
+
+
+def caller_overwrites(data):
+    """the caller reuses the mutable raw data it handed to a constructor; 'ok' if the write went through, 'raised' if refused"""
+    try:
+        if isinstance(data, list):
+            data.reverse()
+            data[:1] = ["N"]
+        else:  # numpy array of alphabet indices
+            data[:] = (data + 1) % 4
+        return "ok"
+    except (ValueError, TypeError):
+        return "raised"
 
 
 def source_reading(src):
